@@ -522,7 +522,7 @@ package limit
 //@   requires default_measurement: rttNoLoad == nil
 //@   requires cfg: initialLimit <= 1000000000 && maxConcurrency <= 1000000000 && probeMultiplier <= 1000000000 && isFinite(smoothing)
 //@   ghostset result.cap = max(float64(result.maxLimit), result.estimatedLimit)
-//@   establishes[C04,C15] result
+//@   establishes[C04,C08,C15] result
 //@   ensures[C04] initial: result != nil && result.estimatedLimit == float64(ite(initialLimit < 1, 20, initialLimit)) && result.maxLimit == ite(maxConcurrency < 0, 1000, maxConcurrency) && result.probeCount == 0 && len(result.listeners) == 0
 //@   ensures[C06,C07,C08] default_functions: (alphaFunc == nil ==> isfunc(result.alphaFunc, "limit.NewVegasLimitWithRegistry$1")) && (betaFunc == nil ==> isfunc(result.betaFunc, "limit.NewVegasLimitWithRegistry$2")) && (thresholdFunc == nil ==> isfunc(result.thresholdFunc, "limit.NewVegasLimitWithRegistry$3")) && (increaseFunc == nil ==> isfunc(result.increaseFunc, "limit.NewVegasLimitWithRegistry$4")) && (decreaseFunc == nil ==> isfunc(result.decreaseFunc, "limit.NewVegasLimitWithRegistry$5"))
 //@   ensures[C06,C07,C08] closure_bindings: (alphaFunc == nil ==> isLog10Root(*captured(result.alphaFunc, "limit.NewVegasLimitWithRegistry$1", 0))) && (betaFunc == nil ==> isLog10Root(*captured(result.betaFunc, "limit.NewVegasLimitWithRegistry$2", 0))) && (thresholdFunc == nil ==> isLog10Root(*captured(result.thresholdFunc, "limit.NewVegasLimitWithRegistry$3", 0))) && (increaseFunc == nil ==> isLog10RootFloat(*captured(result.increaseFunc, "limit.NewVegasLimitWithRegistry$4", 0))) && (decreaseFunc == nil ==> isLog10RootFloat(*captured(result.decreaseFunc, "limit.NewVegasLimitWithRegistry$5", 0)))
@@ -532,7 +532,7 @@ package limit
 //@ func NewGradientLimitWithRegistry
 //@   requires cfg: initialLimit <= 1000000000 && maxConcurrency <= 1000000000 && minLimit <= ite(maxConcurrency <= 0, 1000, maxConcurrency) && ite(minLimit < 1, 1, minLimit) <= ite(initialLimit <= 0, 50, initialLimit) && isFinite(smoothing) && isFinite(rttTolerance) && rttTolerance <= 1.0e6 && (probeInterval == -1 || (0 <= probeInterval && probeInterval <= 1<<31))
 //@   ghostset result.cap = max(float64(result.maxLimit), result.estimatedLimit)
-//@   establishes[C04,C15] result
+//@   establishes[C04,C08,C15] result
 //@   ensures[C04] initial: result != nil && result.estimatedLimit == float64(ite(initialLimit <= 0, 50, initialLimit)) && result.maxLimit == ite(maxConcurrency <= 0, 1000, maxConcurrency) && result.minLimit == ite(minLimit < 1, 1, minLimit) && len(result.listeners) == 0
 //@   ensures[C07] queue_function: (queueSizeFunc != nil ==> result.queueSizeFunc == queueSizeFunc) && (queueSizeFunc == nil ==> isfunc(result.queueSizeFunc, "limit/functions.SqrtRootFunction$1"))
 //@   safety[C04]
@@ -541,7 +541,7 @@ package limit
 //@   requires cfg: initialLimit <= 1000000000 && maxConurrency <= 1000000000 && minLimit <= 1000000000 && isFinite(smoothing) && 1 <= longWindow && longWindow < 1<<31 && ite(minLimit <= 0, 4, minLimit) <= ite(initialLimit <= 0, 4, initialLimit)
 //@   ghostset ret0.cap = max(float64(ret0.maxLimit), ret0.estimatedLimit)
 //@   ensures[C04] rejects_inverted_bounds: ite(minLimit <= 0, 4, minLimit) > ite(maxConurrency <= 0, 1000, maxConurrency) ==> ret0 == nil && ret1 != nil
-//@   establishes[C04] ret0 != nil ==> ret0
+//@   establishes[C04,C08] ret0 != nil ==> ret0
 //@   ensures[C04] initial: ret0 != nil ==> ret1 == nil && ret0.estimatedLimit == float64(ite(initialLimit <= 0, 4, initialLimit)) && ret0.maxLimit == ite(maxConurrency <= 0, 1000, maxConurrency) && ret0.minLimit == ite(minLimit <= 0, 4, minLimit) && len(ret0.listeners) == 0
 //@   safety[C04]
 
@@ -552,6 +552,8 @@ package limit
 //@   ensures[C09] fields: ret0 != nil ==> ret0.delegate == delegate && ret0.minWindowTime == minWindowTime && ret0.maxWindowTime == maxWindowTime && ret0.windowSize == windowSize && ret0.minRTTThreshold == minRTTThreshold && ret0.nextUpdateTime == 0 && ret0.sample.sampleCount == 0 && ret0.sample.didDrop == false
 
 //@ func NewTracedLimit
+//@   requires cfg: limit != nil && logger != nil
+//@   establishes[C16] result
 //@   ensures[C16] fields: result != nil && result.limit == limit && result.logger == logger
 
 //@ func NewSettableLimit
